@@ -24,6 +24,14 @@ CHECKS = {
    text="Bounded model checking of the handshake from MIR: one step of HandshakeState::process from every state (Start for PLAIN/EXTERNAL with/without information, Secure, Open, ServerClosing, Done; Tune in C15) over a fully symbolic frame against the specified transition/emission table including StartOk's mechanism, response (format template and arguments), locale and client-properties table; run_amqp_handshake's result mapping over every reachable (final state, loop error) exit with the poll loop stubbed; wait_for_amqp_handshake's mapping with the join stubbed. Mapping counterexamples are replayed end to end against Connection::insecure_open with a scripted broker over loopback TCP.",
    note="server_supports (split on space + compare) is an uninterpreted predicate; the poll loop itself (timeouts, cuts of the stream) is a stub enumerating exits, so 'every cut of the stream' is represented by the error each cut produces (C06 for decoding); never-hangs is not decided.",
    ref="DESIGN.md §4 C16"),
+ 'C06': dict(
+   text="Induction over the real read loop (frame_buffer::Inner::read_from with AmqpFrameKind::parse_size/parse_frame, from MIR): one and two iterations from an arbitrary buffer state with symbolic stream content, read counts and outcomes; each step must hand on exactly the next complete range sized by its own length field (fully parsed, before any further read), read only when no complete frame is pending, account every byte read, and map WouldBlock / EOF / I/O error / unparsable range / handler error to Ok(bytes) / UnexpectedSocketClose / IoErrorReadingSocket / MalformedFrame / that error. Since every step depends on the stream content and the buffered prefix only, the handed-on sequence is independent of the segmentation for any number of reads and frames.",
+   note="InputBuffer summarised as (position, unread) offsets; nom's u32 parser and amq-protocol's parse_frame are functions of the byte range (one symbolic constant per syntactically distinct position); counterexamples are confirmed natively by a segmentation differential (all cut pairs over interesting offsets incl. the 4096-byte read quantum, three terminal events, split across calls) which is also run as validation in the thorough tier.",
+   ref="DESIGN.md §4 C06"),
+ 'C17': dict(
+   text="Bounded model checking with symbolic time of the real heartbeat code (MIR): Heartbeat::fire for every interval and elapsed time (Expired never more than the 5 ms tolerance early and always once the interval elapsed; cancel + re-arm for the full or the remaining, positive time), RxTxHeartbeat intervals h / 2h for every negotiated h and nothing for h = 0, process_heartbeat_timers (rx expiry => MissedServerHeartbeats, tx expiry => one heartbeat frame iff nothing queued), and the activity stamps (rx renewed iff a read returned bytes, tx on every successful write).",
+   note="Instant/Duration are 128-bit nanosecond counts below 2^80; mio_extras' timer wheel is a recorder (accuracy and promptness of wake-ups are not decided). Counterexamples are confirmed by real-time native scenarios with h = 1 s and 300 ms margins.",
+   ref="DESIGN.md §4 C17"),
  'C07': dict(
    text="Bounded model checking of one step of the real frame dispatcher (ConnectionState::process with the collector, routing and client-exception code it calls, from MIR) from every collector state of a two-channel Steady connection over a fully symbolic AMQPFrame (every arm, every channel id, every field value), against a complete outcome table (which error / client exception / Ok each (state, frame) pair must produce) and effect conditions (nothing delivered on a violation, Connection.Close with the matching hard-error code as last frame, sealed buffer, later frames ignored).",
    note="One step per state family, not arbitrary-length sequences: longer sequences are covered only through the state families (collector states None/Start/Body per kind, ClientException). Two open channels, one consumer each; reply/consumer receivers alive; HashMap as association list, crossbeam queues, Vec<u8> lengths and amq-protocol frame generators are summaries; frame bytes themselves (parsing) are C06.",
